@@ -267,4 +267,9 @@ WORKLOADS = {"fix": (_n, case_fix), "cli": (_n_cli, case_cli)}
 _Q = {"fix.do_fix|held": 150, "fix.match_ref_to_sample|held": 250, "fix.center_by_window|held": 150, "fix.get_edge_bias|held": 60,
       "fix.do_fix[invariance]|held": 350, "class:perm:target": 100, "class:perm:antitarget": 60, "class:perm:reference": 100, "class:scale": 25,
       "class:refusal:missing": 4, "class:refusal:duplicate": 4, "cli.fix[file]|held": 8, "cli.fix[plumbing]|held": 8}
+QUOTA_WAIVERS = {
+    "monitor-unavailable:fix.center_by_window": {"waive": ["fix.center_by_window|held"], "require": {"fix.do_fix|held": 150, "fix.do_fix[invariance]|held": 350}},
+    "monitor-unavailable:fix.match_ref_to_sample": {"waive": ["fix.match_ref_to_sample|held"], "require": {"fix.do_fix|held": 150}},
+    "monitor-unavailable:fix.get_edge_bias": {"waive": ["fix.get_edge_bias|held"], "require": {"fix.do_fix|held": 150}},
+}
 QUOTAS = {"quick": _Q, "thorough": {k: v * (8 if "cli" not in k else 6) for k, v in _Q.items()}}
